@@ -135,7 +135,19 @@ func descKVs(kvs []log.KeyValue) string {
 type op struct {
 	Set   bool
 	Attrs []kvd
+	// what the caller does with the []log.KeyValue it passes (the record must hold the values as
+	// they were at call time: the specification and the model never see these flags)
+	FromBuf  bool // the argument is a sub-slice buf[Off:Off+n] of one long-lived caller buffer
+	Off      int
+	Scribble bool // after the call the caller overwrites every element of the argument's backing array
 }
+
+// callerBuf is the caller's long-lived buffer, re-used across calls (and across original and clone).
+var callerBuf []log.KeyValue
+
+func resetCaller() { callerBuf = make([]log.KeyValue, 32) }
+
+var junk = log.String("JUNK", "scribbled by the caller after the call")
 
 func (o op) coq() string {
 	name := "OAdd"
@@ -150,14 +162,33 @@ func (o op) String() string {
 	if o.Set {
 		name = "SetAttributes"
 	}
-	return name + descKVs(buildKVs(o.Attrs))
+	how := ""
+	if o.FromBuf {
+		how = fmt.Sprintf(" passed as buf[%d:%d] of the caller's re-used buffer", o.Off, o.Off+len(o.Attrs))
+	}
+	if o.Scribble {
+		how += "; caller overwrites the whole backing array of its argument afterwards"
+	}
+	return name + descKVs(buildKVs(o.Attrs)) + how
 }
 
 func (o op) apply(r *sdklog.Record) {
+	arg := buildKVs(o.Attrs)
+	if o.FromBuf && o.Off+len(arg) <= len(callerBuf) {
+		dst := callerBuf[o.Off : o.Off+len(arg)] // capacity reaches to the end of the buffer
+		copy(dst, arg)
+		arg = dst
+	}
 	if o.Set {
-		r.SetAttributes(buildKVs(o.Attrs)...)
+		r.SetAttributes(arg...)
 	} else {
-		r.AddAttributes(buildKVs(o.Attrs)...)
+		r.AddAttributes(arg...)
+	}
+	if o.Scribble {
+		full := arg[:cap(arg)]
+		for i := range full {
+			full[i] = junk
+		}
 	}
 }
 
@@ -279,6 +310,7 @@ func run(p program) (exported observation, cloneObs *observation, err error) {
 }
 
 func runProc(p program) (exported observation, ed *editProc, err error) {
+	resetCaller()
 	exp := &recExporter{}
 	ed = &editProc{ops: p.Ops, cloneAt: p.CloneAt, onClone: p.OnClone, sched: p.Sched}
 	if p.How == howZeroRecord {
@@ -447,7 +479,11 @@ func genProgram(r *vgen.Rand) program {
 		n = r.Range(4, 10)
 	}
 	for i := 0; i < n; i++ {
-		o := op{Set: r.Chance(1, 5), Attrs: genAttrs(r, 9, &fresh, poolN)}
+		o := op{Set: r.Chance(1, 5), Attrs: genAttrs(r, vgen.Pick(r, []int{9, 9, 12}), &fresh, poolN)}
+		o.Scribble = r.Chance(1, 2)
+		if r.Chance(1, 3) {
+			o.FromBuf, o.Off = true, r.Intn(9)
+		}
 		switch r.Intn(24) { // input shapes: all-equal keys, reversed / pre-sorted key order, very long
 		case 0:
 			k := vgen.Pick(r, keyPool)
@@ -665,6 +701,11 @@ func main() {
 		// all-equal keys, reversed order, a zero-value Record edited directly (limits 0/0)
 		{LenLim: -1, CntLim: 2, CloneAt: -1, Init: []kvd{{"a", sv("0")}}, Ops: []op{{Attrs: []kvd{{"b", sv("1")}, {"b", sv("2")}, {"b", sv("3")}, {"b", sv("4")}}}, {Attrs: []kvd{{"c", sv("5")}, {"b", sv("6")}, {"a", sv("7")}}}}},
 		{How: howZeroRecord, LenLim: 0, CntLim: 0, CloneAt: -1, Ops: []op{{Attrs: []kvd{{"a", sv("abc")}, {"a", sv("d")}}}, {Set: true, Attrs: []kvd{{"b", val{Kind: log.KindSlice, L: []val{sv("xyz")}}}}}}},
+		// the caller re-uses / overwrites the slice it passed (6+ attributes reach the overflow slice), then passes a sub-slice of the same buffer
+		{LenLim: -1, CntLim: -1, CloneAt: -1, Ops: []op{
+			{FromBuf: true, Off: 0, Scribble: true, Attrs: []kvd{{"a", sv("1")}, {"b", sv("2")}, {"c", sv("3")}, {"d", sv("4")}, {"e", sv("5")}, {"f", sv("6")}, {"g", sv("7")}}},
+			{FromBuf: true, Off: 5, Attrs: []kvd{{"a", sv("99")}}}, {Set: true, FromBuf: true, Off: 2, Scribble: true, Attrs: []kvd{{"p", sv("1")}, {"q", sv("2")}, {"r", sv("3")}, {"s", sv("4")}, {"t", sv("5")}, {"u", sv("6")}}},
+			{FromBuf: true, Off: 7, Scribble: true, Attrs: []kvd{{"v", sv("7")}}}}},
 		// F-C17-2: count limit 0 documented as "no attributes"
 		{LenLim: -1, CntLim: 0, CloneAt: -1, Init: []kvd{{"a", sv("1")}}, Ops: []op{{Attrs: []kvd{{"b", sv("2")}}}}},
 		{LenLim: -1, CntLim: 0, CloneAt: -1, Ops: []op{{Set: true, Attrs: []kvd{{"a", sv("1")}, {"a", sv("2")}}}}},
@@ -752,7 +793,8 @@ func main() {
 		p.CloneAt = len(p.Ops)
 		p.Sched = []schedStep{}
 		for j, n := 0, r.Range(1, 6); j < n; j++ {
-			p.Sched = append(p.Sched, schedStep{OnClone: r.Bool(), Op: op{Set: r.Chance(1, 8), Attrs: genAttrs(r, 6, &fresh, 8)}})
+			p.Sched = append(p.Sched, schedStep{OnClone: r.Bool(), Op: op{Set: r.Chance(1, 8), Attrs: genAttrs(r, 6, &fresh, 8),
+				Scribble: r.Bool(), FromBuf: r.Chance(1, 3), Off: r.Intn(9)}})
 		}
 		all := make([]op, 0, len(p.Init)+len(p.Ops))
 		for _, a := range p.Init {
